@@ -292,3 +292,69 @@ Definition model_run (fixed : bool) (local : N) (choice : nat -> shard -> N) (sh
   let m := map_shards local choice shards in
   let '(qs, log) := run_ops fixed beh data (amap_get m local) (remote_groups local m) [] ops in
   (m, qs, log).
+
+(* ====================================================================================
+   Statements with several sources (FROM cpu, mem; subquery + measurement; two retention
+   policies).  ClusterShardMapper.mapShards walks the (flattened) source list and maps a
+   (database, retention policy) key only if RemoteShardMapping has no entry for it yet.
+   ==================================================================================== *)
+
+Definition assoc_has {A} (l : list (N * A)) (k : N) : bool := existsb (fun e => N.eqb (fst e) k) l.
+Definition assoc_get {A} (d : A) (l : list (N * A)) (k : N) : A :=
+  match find (fun e => N.eqb (fst e) k) l with Some e => snd e | None => d end.
+Fixpoint assoc_set {A} (l : list (N * A)) (k : N) (v : A) : list (N * A) :=
+  match l with
+  | [] => [(k, v)]
+  | (k', x) :: t => if N.eqb k' k then (k, v) :: t else (k', x) :: assoc_set t k v
+  end.
+
+(* LocalShardMapping.ShardMap (source -> local shards) and RemoteShardMapping
+   (source -> remote shard groups, each with its dirty set) *)
+Record mstate := mkM { lmap : list (N * list shard); rmap : list (N * list gstate) }.
+
+(* one *influxql.Measurement source with key [src]; [view src] is what
+   MetaClient.ShardGroupsByTimeRange returns for it *)
+Definition map_one (local : N) (choice : nat -> shard -> N) (view : N -> list shard)
+           (st : mstate) (src : N) : mstate :=
+  if assoc_has (rmap st) src then st            (* if _, ok := a.RemoteShardMapping[source]; !ok *)
+  else match view src with
+       | [] => mkM (assoc_set (lmap st) src []) (assoc_set (rmap st) src [])   (* len(groups) == 0 *)
+       | _ :: _ =>
+           let m := map_shards local choice (view src) in
+           (* for nodeID, shards := range shardsByNodeID *)
+           let l1 := if has_key m local then assoc_set (lmap st) src (amap_get m local) else lmap st in
+           let rg := remote_groups local m in
+           let r1 := match rg with
+                     | [] => rmap st
+                     | _ :: _ => assoc_set (rmap st) src (assoc_get [] (rmap st) src ++ rg)   (* append *)
+                     end in
+           mkM l1 r1
+       end.
+
+(* [choice pos] is the oracle used while mapping the source at position pos *)
+Fixpoint map_sources (local : N) (choice : nat -> nat -> shard -> N) (view : N -> list shard)
+         (pos : nat) (st : mstate) (srcs : list N) : mstate :=
+  match srcs with
+  | [] => st
+  | s :: rest => map_sources local choice view (S pos) (map_one local (choice pos) view st s) rest
+  end.
+
+(* operations name the source of their measurement; the segment is what the operation
+   appended to the request log *)
+Fixpoint run_mops (fixed : bool) (beh : behaviour) (data : N -> list N) (st : mstate)
+         (log : list key) (ops : list (N * op)) : list (qres * list key) :=
+  match ops with
+  | [] => []
+  | (src, o) :: rest =>
+      let gs := assoc_get [] (rmap st) src in
+      let '(rs, gs', log1) := run_groups fixed o beh gs log in
+      let st' := if assoc_has (rmap st) src then mkM (lmap st) (assoc_set (rmap st) src gs') else st in
+      (op_result o data (assoc_get [] (lmap st) src) rs, skipn (length log) log1)
+        :: run_mops fixed beh data st' log1 rest
+  end.
+
+Definition model_mrun (fixed : bool) (local : N) (choice : nat -> nat -> shard -> N)
+           (view : N -> list shard) (data : N -> list N) (beh : behaviour)
+           (srcs : list N) (ops : list (N * op)) : mstate * list (qres * list key) :=
+  let st := map_sources local choice view O (mkM [] []) srcs in
+  (st, run_mops fixed beh data st [] ops).
